@@ -1,5 +1,6 @@
 // Native replay for C01 against the REAL STIR libraries of /repo's working tree.
 // usage: c01_replay tables <num_detectors_per_ring> [<view_mashing>]
+//        c01_replay stale <num_detectors_per_ring> <view_mashing after the first look-up>
 //        c01_replay rings  <num_rings> <span> <max_delta>
 //        c01_replay ringsn <scanner name> <span> <max_delta (-1: all)>   the same on a predefined scanner (its own ring spacing)
 //        c01_replay tof    <tof_mash_factor>
@@ -76,6 +77,48 @@ static int tables(int N, int mash)
               { std::printf("CONFIRMED N=%d: bin (seg 0, view %d, ax 1, tang %d) -> pair -> bin (seg %d, view %d, ax %d, tang %d, tof %d)\n", N, v, t, b2.segment_num(), b2.view_num(), b2.axial_pos_num(), b2.tangential_pos_num(), b2.timing_pos_num()); return 1; }
           }
       }
+  std::printf("REPLAY ok\n");
+  return 0;
+}
+
+// history clause: the lazily built pair -> (view, tang) table must not go stale when the number of views (view mashing) of
+// the object, or of a clone of it, is changed AFTER a look-up: every pair is still assigned to a bin that contains it.
+static int stale(int N, int mash_after)
+{
+  shared_ptr<Scanner> scanner(new Scanner(Scanner::E953));
+  scanner->set_num_detectors_per_ring(N);
+  scanner->set_num_rings(3);
+  scanner->set_max_num_non_arccorrected_bins(N - 1);
+  scanner->set_default_bin_size(scanner->get_default_bin_size());
+  auto pdi = make(scanner, 1, 2, N / 2, N - 1);
+  if (!pdi) { std::printf("cannot construct proj data info\n"); return 3; }
+  int v0, t0;
+  pdi->get_view_tangential_pos_num_for_det_num_pair(v0, t0, 0, N / 2); // builds the table with mashing factor 1
+  shared_ptr<ProjDataInfo> cl = pdi->create_shared_clone();
+  ProjDataInfoCylindricalNoArcCorr& c = dynamic_cast<ProjDataInfoCylindricalNoArcCorr&>(*cl);
+  c.set_num_views(N / 2 / mash_after);
+  for (int pass = 0; pass < 2; ++pass)
+    {
+      ProjDataInfoCylindricalNoArcCorr& q = pass == 0 ? c : *pdi;
+      if (pass == 1) q.set_num_views(N / 2 / mash_after); // the same on the original object
+      for (int d1 = 0; d1 < N; ++d1)
+        for (int d2 = 0; d2 < N; ++d2)
+          {
+            if (d1 == d2) continue;
+            int v = -99999, t = -99999;
+            const bool pos = q.get_view_tangential_pos_num_for_det_num_pair(v, t, d1, d2);
+            bool found = false;
+            if (v >= 0 && v < N / 2 / mash_after)
+              for (int u = v * mash_after; u < (v + 1) * mash_after && !found; ++u)
+                found = pos ? (spec_det1(u, t, N) == d1 && spec_det2(u, t, N) == d2) : (spec_det1(u, t, N) == d2 && spec_det2(u, t, N) == d1);
+            if (!found)
+              {
+                std::printf("CONFIRMED N=%d: after a look-up with %d views and set_num_views(%d) on %s, pair (%d,%d) is assigned to (view %d, tang %d) which does not contain it\n",
+                            N, N / 2, N / 2 / mash_after, pass == 0 ? "a clone" : "the object", d1, d2, v, t);
+                return 1;
+              }
+          }
+    }
   std::printf("REPLAY ok\n");
   return 0;
 }
@@ -188,6 +231,7 @@ int main(int argc, char** argv)
   try
     {
       if (argc >= 3 && !strcmp(argv[1], "tables")) return tables(atoi(argv[2]), argc > 3 ? atoi(argv[3]) : 1);
+      if (argc >= 4 && !strcmp(argv[1], "stale")) return stale(atoi(argv[2]), atoi(argv[3]));
       if (argc >= 5 && !strcmp(argv[1], "rings")) return rings(atoi(argv[2]), atoi(argv[3]), atoi(argv[4]));
       if (argc >= 5 && !strcmp(argv[1], "ringsn")) return rings(0, atoi(argv[3]), atoi(argv[4]), argv[2]);
       if (argc >= 3 && !strcmp(argv[1], "tof")) return tof(atoi(argv[2]));
